@@ -63,7 +63,7 @@ CHECKS["C06"] = (
 
 CHECKS["C07"] = (
     "metamorphic executions of the real code on related cohorts (others perturbed / target alone / permuted / 1 vs 2 workers) + recorded decisions of the real individual sampler from the same RNG state; bit-identity for the target between two same-shaped executions",
-    "Held on every relation observed over model kinds, cohorts of 3-12 individuals and three personalisation families. Exploration; personalisation outputs under permutation are not judged (position-indexed draws, the statement's own caveat).",
+    "Held on every relation observed over model kinds (incl. a two-event joint model: cohorts in which a kind of event goes absent, read with and without the announced number of events), cohorts of 3-13 individuals and three personalisation families. Exploration; personalisation outputs under permutation are not judged (position-indexed draws, the statement's own caveat).",
     "Trusts that loading two datasets into clones of the same initialised model keeps population variables fixed; hash seed pinned.",
     "DESIGN.md §2 C07",
 )
